@@ -61,6 +61,8 @@ func extraSuite(name string, g *gen, e *emitter, n int) bool {
 			roundTrip(e, c, rqs)
 			i++
 		}
+	case "intents":
+		suiteIntents(g, e, n)
 	case "schedule":
 		suiteSchedule(g, e, n)
 	case "stress":
